@@ -193,7 +193,7 @@ package bill
 //@   requires inv.Totals != nil && inv.Totals.Taxes != nil ==> tax.wfTotal(inv.Totals.Taxes)
 //@   modifies *
 //@   use Total).Clone shape
-//@   at-call Invoice).Calculate assert [unlinked] inv.Identify.UUID == "" && inv.Code == "" && inv.Type == o.Type && o.Type != ""
+//@   at-call Invoice).Calculate assert [unlinked] inv.Identify.UUID == "" && inv.Code == "" && inv.Type == o.Type && o.Type != "" && inv.Series == ite(o.Series != "", o.Series, old(inv.Series))
 //@   at-call Invoice).Calculate assert [linked] len(inv.Preceding) == 1 && inv.Preceding[0] != nil && fresh(inv.Preceding[0]) && inv.Preceding[0].Identify.UUID == old(inv.Identify.UUID) && inv.Preceding[0].Type == old(inv.Type) && inv.Preceding[0].Series == old(inv.Series) && inv.Preceding[0].Code == old(inv.Code) && old(inv.Code) != ""
 //@   at-call Invoice).Calculate assert [date] inv.Preceding[0].IssueDate != nil && *inv.Preceding[0].IssueDate == old(inv.IssueDate) && inv.Preceding[0].Reason == o.Reason && inv.Preceding[0].Ext == o.Ext
 //@   at-call Invoice).Calculate assert [required] cd != nil ==> (len(cd.Types) > 0 ==> cbc.keyAmong(inv.Type, cd.Types)) && (cd.ReasonRequired ==> inv.Preceding[0].Reason != "") && (forall i int :: 0 <= i && i < len(cd.Stamps) ==> stampFor(cd.Stamps[i], inv.Preceding[0].Stamps))
